@@ -226,9 +226,13 @@ class SeriesBody:
     """straight-line interpretation of _apply_coefficients into a TP, plus a parity analysis; helper methods of the same
     class are inlined and `self.<attr>` values written by them are tracked like locals"""
 
-    def __init__(self, fn: ast.FunctionDef, methods: Optional[Dict[str, ast.FunctionDef]] = None):
+    def __init__(self, fn: ast.FunctionDef, methods: Optional[Dict[str, ast.FunctionDef]] = None,
+                 module_funcs: Optional[Dict[str, ast.FunctionDef]] = None, module_consts: Optional[Dict[str, float]] = None):
         self.fn = fn
         self.methods = methods or {}
+        self.module_funcs = module_funcs or {}
+        self.module_consts = module_consts or {}
+        self.premaps: List[tuple] = []     # input normalisations  phi = f(phi): (threshold, snapped value, strict?, node)
         self.depth = 0
         self.pieces: List[tuple] = []      # small-angle shortcuts: (bound, other conditions, slope expression, node)
         params = [a.arg for a in fn.args.args]
@@ -265,6 +269,8 @@ class SeriesBody:
                 if st.value is None:
                     continue
                 name = tgt.id if isinstance(tgt, ast.Name) else (f"self.{tgt.attr}" if isinstance(tgt, ast.Attribute) and core.src(tgt.value) == "self" else None)
+                if top and name == self.phi and self._premap(st.value, st):
+                    continue
                 if name is not None:
                     v = self.ev(st.value)
                     if v is None:
@@ -289,6 +295,45 @@ class SeriesBody:
             self.problem = f"statement `{core.src(st)[:60]}` is not a plain assignment, helper call or return"
             return None
         return None
+
+    def _premap(self, value: ast.expr, st: ast.stmt) -> bool:
+        """`phi = f(phi)` with a module-level f of the clamp / snap form
+               if abs(x) >= A: return copysign(B, x)      [or  > A]
+               return x
+        is recorded as an input normalisation (identity below the threshold) and phi keeps its meaning"""
+        e = value
+        while isinstance(e, ast.Call) and core.src(e.func) == "cast" and len(e.args) == 2:
+            e = e.args[1]
+        if not (isinstance(e, ast.Call) and isinstance(e.func, ast.Name) and e.func.id in self.module_funcs and len(e.args) == 1
+                and isinstance(e.args[0], ast.Name) and e.args[0].id == self.phi and not e.keywords):
+            return False
+        f = self.module_funcs[e.func.id]
+        if len(f.args.args) != 1:
+            return False
+        x = f.args.args[0].arg
+        body = [b for b in f.body if not (isinstance(b, ast.Expr) and isinstance(b.value, ast.Constant))]
+        if not (len(body) == 2 and isinstance(body[0], ast.If) and not body[0].orelse and len(body[0].body) == 1 and isinstance(body[0].body[0], ast.Return)
+                and isinstance(body[1], ast.Return)):
+            return False
+        def strip(v):
+            while isinstance(v, ast.Call) and core.src(v.func) == "cast" and len(v.args) == 2:
+                v = v.args[1]
+            return v
+        if not (isinstance(strip(body[1].value), ast.Name) and strip(body[1].value).id == x):
+            return False
+        t = body[0].test
+        if not (isinstance(t, ast.Compare) and len(t.ops) == 1 and isinstance(t.ops[0], (ast.GtE, ast.Gt)) and isinstance(t.left, ast.Call)
+                and core.src(t.left.func) in ("abs", "math.fabs") and len(t.left.args) == 1 and core.src(t.left.args[0]) == x):
+            return False
+        thr = fold_const(t.comparators[0], self.module_consts)
+        r = strip(body[0].body[0].value)
+        if not (isinstance(r, ast.Call) and core.src(r.func) in ("math.copysign", "copysign") and len(r.args) == 2 and core.src(r.args[1]) == x):
+            return False
+        snap = fold_const(r.args[0], self.module_consts)
+        if thr is None or snap is None:
+            return False
+        self.premaps.append((thr, snap, isinstance(t.ops[0], ast.Gt), st, f.name))
+        return True
 
     def _small_angle_piece(self, st: ast.If):
         """`if abs(phi) < T [and other conditions]: return phi * X`  ->  (T expression, other conditions, X expression, node);
@@ -498,8 +543,51 @@ def run(ctx):
     # ---- C15.1 ---------------------------------------------------------------------------------------------
     cls_node = [n for n in tree.body if isinstance(n, ast.ClassDef) and n.name == "AuthalicProjection"]
     methods = {m.name: m for m in cls_node[0].body if isinstance(m, ast.FunctionDef)} if cls_node else {}
-    sb = SeriesBody(fn, methods)
+    module_funcs = {n.name: n for n in tree.body if isinstance(n, ast.FunctionDef)}
+    module_consts: Dict[str, float] = {}
+    for n in tree.body:
+        if isinstance(n, (ast.Assign, ast.AnnAssign)) and n.value is not None:
+            tg = n.targets[0] if isinstance(n, ast.Assign) else n.target
+            if isinstance(tg, ast.Name):
+                v = fold_const(n.value, module_consts)
+                if v is not None:
+                    module_consts[tg.id] = v
+    # ---- C15.0: the methods analysed are the ones that run (no wrapper that the analysis does not see through) -------------
+    from .model import Model as _Model
+    from .shared_state import wrapper_memo_collisions
+    collided = set()
+    for wm, fs in wrapper_memo_collisions(_Model(ctx.sources)):
+        mine = [f for f in fs if f.startswith("a5.projections.authalic.AuthalicProjection.")]
+        if len(mine) >= 2:
+            collided |= {f.rsplit(".", 1)[-1] for f in mine}
+            ctx.bad("C15.0", f"{' and '.join(f.rsplit('.', 1)[-1] for f in mine)} share the memo of @{wm.decorator.rsplit('.', 1)[-1]}, keyed by `{wm.key_text}` only", f"{wm.rel}:{wm.line}",
+                    f"both conversions store their results in the per-instance attribute {wm.storage[1]!r} under the bare argument: after one direction has been "
+                    f"asked for a latitude, the other direction returns that value for the same number (error up to the size of the series, ~4.5e-3 rad)")
+    for mname in ("forward", "inverse", "_apply_coefficients"):
+        if mname in collided:
+            continue
+        m_ = methods_of(tree).get(mname)
+        if m_ is not None:
+            for d in m_.decorator_list:
+                dn = core.src(d.func if isinstance(d, ast.Call) else d)
+                if dn not in ("staticmethod", "classmethod"):
+                    ctx.unk("C15.0", f"AuthalicProjection.{mname} is wrapped by the decorator @{dn}", core.loc(AUTH, m_),
+                            "what the wrapper returns (and remembers between calls) is not modelled: the obligations below describe the undecorated body only")
+    sb = SeriesBody(fn, methods, module_funcs, module_consts)
     check_result_memo(ctx, methods)
+    for thr, snap, strict, node, fname in sb.premaps:
+        w_ = core.loc(AUTH, node)
+        half = math.pi / 2
+        if thr >= half and abs(snap - half) <= 4e-16:
+            ctx.ok("C15.10", f"input normalisation {fname}: only values at or beyond the poles are moved (to the pole)", w_,
+                   f"|phi| >= {thr!r} -> +-{snap!r}; identity on the open interval")
+        elif half - thr > 1e-15:
+            x = thr + (half - thr) / 2
+            ctx.bad("C15.10", f"input normalisation {fname} maps every latitude with |phi| in [{thr!r}, pi/2) to +-{snap!r}", w_,
+                    f"the conversion is constant on an interval of width {half - thr:.3g} rad inside the domain (e.g. at phi = {x!r} and phi = {thr!r}): "
+                    f"not strictly increasing there, and off the closed form by up to about {half - thr:.3g} rad (bound 1e-10), round trip by the same amount (bound 1e-12)")
+        else:
+            ctx.unk("C15.10", f"input normalisation {fname}", w_, f"threshold {thr!r} is within a few ulp of pi/2: effect on the last representable latitudes not decided")
     order = None
     if sb.problem or sb.ret is None:
         ctx.unk("C15.1", "AuthalicProjection._apply_coefficients computes phi + sum C_k sin(2(k+1) phi)", where, f"body not modelled: {sb.problem}")
@@ -725,17 +813,19 @@ def best_linear_error(lit: List[float], T: float) -> float:
     return err((lo + hi) / 2)
 
 
-def fold_const(e: ast.expr) -> Optional[float]:
-    """constant folding of a float expression built from literals, math.pi and + - * /"""
+def fold_const(e: ast.expr, names: Optional[Dict[str, float]] = None) -> Optional[float]:
+    """constant folding of a float expression built from literals, math.pi, named module constants and + - * /"""
     if isinstance(e, ast.Constant) and isinstance(e.value, (int, float)) and not isinstance(e.value, bool):
         return float(e.value)
+    if isinstance(e, ast.Name) and names is not None and e.id in names:
+        return names[e.id]
     if isinstance(e, ast.Attribute) and core.src(e) in ("math.pi",):
         return math.pi
     if isinstance(e, ast.UnaryOp) and isinstance(e.op, ast.USub):
-        v = fold_const(e.operand)
+        v = fold_const(e.operand, names)
         return None if v is None else -v
     if isinstance(e, ast.BinOp):
-        a, b = fold_const(e.left), fold_const(e.right)
+        a, b = fold_const(e.left, names), fold_const(e.right, names)
         if a is None or b is None:
             return None
         if isinstance(e.op, ast.Add):
@@ -747,6 +837,13 @@ def fold_const(e: ast.expr) -> Optional[float]:
         if isinstance(e.op, ast.Div) and b != 0:
             return a / b
     return None
+
+
+def methods_of(tree: ast.Module) -> Dict[str, ast.FunctionDef]:
+    for n in tree.body:
+        if isinstance(n, ast.ClassDef) and n.name == "AuthalicProjection":
+            return {m.name: m for m in n.body if isinstance(m, ast.FunctionDef)}
+    return {}
 
 
 def wiring(ctx):
